@@ -1,6 +1,202 @@
-//! C05 extras: baseline/capacity probe after DropAll+gc, background collector.
+//! C03/C05 extras: MTBDD/TDD histories with structure / reference-count audits;
+//! baseline + capacity probe after DropAll+gc; background collector.
 use std::io::Write;
 
-use crate::engine::Cfg;
+use oxidd::{BooleanFunction, Function, InnerNode, Manager, ManagerRef};
+use oxidd_core::LevelView;
+use serde_json::json;
 
-pub fn add_jobs<'a>(_cfg: &'a Cfg, _jobs: &mut Vec<Box<dyn FnMut(&mut dyn Write) + 'a>>, _names: &mut Vec<String>) {}
+use crate::engine::*;
+use crate::hist::Checks;
+use crate::kinds::*;
+use crate::vhist::vhist_campaign;
+use crate::vkinds::*;
+
+pub fn add_jobs_c03<'a>(cfg: &'a Cfg, jobs: &mut Vec<Box<dyn FnMut(&mut dyn Write) + 'a>>, names: &mut Vec<String>) {
+    let checks = Checks { canon: false, structure: true, rc: false, node_count: true };
+    let nt = |s: &crate::hrun::CaseStats| s.audits_with_dead > 0 && (s.gcs > 0 || s.reorders_effective > 0 || s.add_vars > 0);
+    for sh in 0..cfg.t(2, 4) {
+        let cases = cfg.t(600, 8000);
+        macro_rules! add {
+            ($K:ty, $salt:expr) => {
+                let seed = mix(cfg.seed ^ (0xc03_f00 + $salt * 100 + sh as u64));
+                names.push(format!("vhist/{}/{}", <$K>::NAME, sh));
+                jobs.push(Box::new(move |w: &mut dyn Write| {
+                    let mut rep = Report::default();
+                    vhist_campaign::<$K>("C03", seed, cases, checks, 8, 8, &[16], &mut rep, &nt);
+                    rep.emit(w);
+                }));
+            };
+        }
+        add!(MtI64K, 1);
+        add!(MtF64K, 2);
+        add!(TddK, 3);
+    }
+}
+
+/// After DropAll + gc: node count back to baseline and the full capacity is available
+/// again (index backend; capacities < 64Ki allocate slot by slot).
+fn capacity_probe<K: BoolKind>(seed: u64, rounds: u32, rep: &mut Report)
+where
+    for<'id> <<K::F as Function>::Manager<'id> as Manager>::InnerNode: oxidd::HasLevel,
+{
+    let mut s = seed;
+    for round in 0..rounds {
+        s = mix(s);
+        let n = 4 + (s % 4) as u32;
+        let cap = 200 + (s >> 8) as usize % 300;
+        let ctx = json!({"kind": K::NAME, "n": n, "capacity": cap, "round": round});
+        progress(&json!({"sig": format!("C05/{}/capacity-probe/crash", K::NAME), "ctx": ctx}).to_string());
+        let order: Vec<u32> = (0..n).collect();
+        let mr = crate::build::mk_manager::<K>(n, &order, cap, 16, 1);
+        let baseline = K::num_inner_nodes(&mr);
+        let expected_baseline = if K::KIND == crate::model::BKind::Zbdd { n as usize } else { 0 };
+        rep.evaluations += 1;
+        if baseline != expected_baseline {
+            rep.viol(format!("C05/{}/baseline", K::NAME), format!("fresh manager with {n} variables holds {baseline} inner nodes, expected {expected_baseline}"), ctx.clone());
+            continue;
+        }
+        // do some work incl. a reorder, then drop everything
+        {
+            let vs = crate::build::vars::<K>(&mr, n);
+            let mut pool = vec![];
+            let mut acc = vs[0].clone();
+            for i in 0..40usize {
+                s = mix(s);
+                let v = &vs[(s % n as u64) as usize];
+                let r = match s % 5 {
+                    0 => acc.and(v),
+                    1 => acc.or(v),
+                    2 => acc.xor(v),
+                    3 => acc.nand(v),
+                    _ => acc.ite(v, &vs[i % n as usize]),
+                };
+                let Ok(r) = r else { break };
+                acc = r;
+                pool.push(acc.clone());
+                if i == 20 {
+                    let mut o: Vec<u32> = (0..n).collect();
+                    o.reverse();
+                    K::set_var_order(&mr, &o, true);
+                }
+                if i == 30 {
+                    K::gc(&mr);
+                }
+            }
+        }
+        K::gc(&mr);
+        let after = K::num_inner_nodes(&mr);
+        rep.evaluations += 1;
+        if after != baseline {
+            rep.viol(format!("C05/{}/baseline-after-dropall-gc", K::NAME), format!("after dropping all handles and gc(): {after} inner nodes, initial count was {baseline}"), ctx.clone());
+            continue;
+        }
+        // capacity probe: exactly cap - baseline fresh nodes can be created
+        let created = mr.with_manager_shared(|m| {
+            let mut edges = vec![];
+            let t = K::F::t(m);
+            let f = K::F::f(m);
+            let mut prev: Vec<_> = vec![m.clone_edge(t.as_edge(m)), m.clone_edge(f.as_edge(m))];
+            let mut count = 0usize;
+            'outer: for level in (0..n).rev() {
+                let mut this = vec![];
+                for i in 0..prev.len() {
+                    for j in 0..prev.len() {
+                        if i == j || count > cap + 10 {
+                            continue;
+                        }
+                        // BCDD: then-edge must be untagged; ZBDD: hi != empty. Use distinct
+                        // children from the previous layer and skip forbidden shapes.
+                        use oxidd::Edge;
+                        use oxidd_core::Countable;
+                        if prev[i].tag().as_usize() != 0 {
+                            continue;
+                        }
+                        if K::KIND == crate::model::BKind::Zbdd && prev[i] == *f.as_edge(m) {
+                            continue;
+                        }
+                        let node = <<K::F as Function>::Manager<'_> as Manager>::InnerNode::new(level, [m.clone_edge(&prev[i]), m.clone_edge(&prev[j])]);
+                        match m.level(level).get_or_insert(node) {
+                            Ok(e) => {
+                                if !edges.iter().any(|x| x == &e) && !prev.iter().any(|x| x == &e) {
+                                    count += 1;
+                                    this.push(m.clone_edge(&e));
+                                }
+                                edges.push(e);
+                            }
+                            Err(_) => break 'outer,
+                        }
+                    }
+                }
+                for e in this {
+                    prev.push(e);
+                }
+                if prev.len() > 40 {
+                    let keep: Vec<_> = prev.drain(..).take(40).collect();
+                    prev = keep;
+                }
+            }
+            // count distinct new nodes
+            let mut ids: Vec<usize> = edges.iter().map(|e| { use oxidd::Edge; e.node_id() }).collect();
+            ids.sort();
+            ids.dedup();
+            let res = ids.len();
+            for e in edges {
+                m.drop_edge(e);
+            }
+            for e in prev {
+                m.drop_edge(e);
+            }
+            res
+        });
+        rep.evaluations += 1;
+        let total_now = K::num_inner_nodes(&mr);
+        // nodes of the ZBDD tautology chain may coincide with probe nodes
+        if total_now != cap && created + baseline < cap {
+            rep.viol(format!("C05/{}/capacity-lost", K::NAME), format!("after DropAll+gc only {} inner nodes fit into a manager with capacity {cap} (probe created {created} distinct nodes, baseline {baseline})", total_now), ctx.clone());
+        } else {
+            rep.nontrivial += 1;
+        }
+        if rep.samples.len() < 1 {
+            rep.sample(json!({"suite": "capacity probe", "ctx": ctx, "created": created, "inner_nodes_at_oom": total_now}));
+        }
+    }
+    rep.class_n(&format!("{}.capacity_probes", K::NAME), rounds as u64);
+}
+
+pub fn add_jobs<'a>(cfg: &'a Cfg, jobs: &mut Vec<Box<dyn FnMut(&mut dyn Write) + 'a>>, names: &mut Vec<String>) {
+    let checks = Checks { canon: false, structure: true, rc: true, node_count: false };
+    let nt = |s: &crate::hrun::CaseStats| s.gc_removed > 0 && s.gcs > 0;
+    for sh in 0..cfg.t(2, 4) {
+        let cases = cfg.t(600, 8000);
+        macro_rules! add {
+            ($K:ty, $salt:expr) => {
+                let seed = mix(cfg.seed ^ (0xc05_f00 + $salt * 100 + sh as u64));
+                names.push(format!("vhist/{}/{}", <$K>::NAME, sh));
+                jobs.push(Box::new(move |w: &mut dyn Write| {
+                    let mut rep = Report::default();
+                    vhist_campaign::<$K>("C05", seed, cases, checks, 4, 14, &[16], &mut rep, &nt);
+                    rep.emit(w);
+                }));
+            };
+        }
+        add!(MtI64K, 1);
+        add!(MtF64K, 2);
+        add!(TddK, 3);
+    }
+    macro_rules! probe {
+        ($K:ty, $salt:expr) => {
+            let seed = mix(cfg.seed ^ (0xc05_e00 + $salt));
+            let rounds = cfg.t(60, 600);
+            names.push(format!("capacity-probe/{}", <$K>::NAME));
+            jobs.push(Box::new(move |w: &mut dyn Write| {
+                let mut rep = Report::default();
+                capacity_probe::<$K>(seed, rounds, &mut rep);
+                rep.emit(w);
+            }));
+        };
+    }
+    probe!(BddK, 1);
+    probe!(BcddK, 2);
+    probe!(ZbddK, 3);
+}
